@@ -125,6 +125,7 @@ type concShared struct {
 	dg     *dawg.Dawg
 	words  []word
 	a, b   sortints.SortedInts
+	rack   []byte // an unsorted pattern / rack shared by all goroutines that build searchers from it
 }
 
 func orbitSets(ds disjoint.Set) string {
@@ -245,6 +246,11 @@ func runConcTask(sh *concShared, tk cTask) string {
 		}
 		w, ids := sh.dg.Search(s)
 		fmt.Fprintf(&sb, "%q %v", w, ids)
+		// searchers built from the one shared rack
+		w, ids = sh.dg.Search(dawg.NewAnagramSearcher(sh.rack, '?'))
+		fmt.Fprintf(&sb, "%q %v", w, ids)
+		w, ids = sh.dg.Search(dawg.NewPatternSearcher(sh.rack, '?'))
+		fmt.Fprintf(&sb, "%q %v %q", w, ids, sh.rack)
 		w, ids = sh.dg.Search()
 		fmt.Fprintf(&sb, "%q %v", w, ids)
 	case "dawg-gob":
@@ -361,6 +367,8 @@ func runConcTask(sh *concShared, tk cTask) string {
 		fmt.Fprint(&sb, comb.Rank(sh.a[:min(len(sh.a), 0)]))
 	case "sortints":
 		a, b := sh.a, sh.b // shared, read-only
+		own2 := sortints.SortedInts{1000 + tk.A, 2000 + tk.B}
+		fmt.Fprint(&sb, sortints.Union(a, own2), sortints.XOR(a, own2), sortints.SetMinus(a, own2), sortints.Union(b, own2))
 		fmt.Fprint(&sb, sortints.Union(a, b), sortints.Intersection(a, b), sortints.SetMinus(a, b), sortints.XOR(a, b),
 			sortints.IntersectionSize(a, b), sortints.ContainsSorted(a, b), sortints.Complement(10, a), sortints.Range(tk.A, tk.A+9, 2))
 		own := sortints.NewSortedInts(a...)
@@ -400,7 +408,14 @@ func checkConcCase(c concCase, rec *Rec) error {
 		_ = os.WriteFile(f+".current", fl, 0o644)
 	}
 	model := c.Shared.Model()
-	sh := &concShared{model: model, graphs: reps(model), words: c.Words, a: sortints.SortedInts(c.SetA), b: sortints.SortedInts(c.SetB)}
+	// shared read-only sets live in arrays with spare capacity; the shared rack is one slice used by every goroutine
+	withSpare := func(x []int) sortints.SortedInts {
+		y := make([]int, len(x), len(x)+12)
+		copy(y, x)
+		return y
+	}
+	sh := &concShared{model: model, graphs: reps(model), words: c.Words, a: withSpare(c.SetA), b: withSpare(c.SetB)}
+	sh.rack = []byte("cab?abc")
 	sh.dense = denseOf(model)
 	sh.sparse = sparseOf(model)
 	var err error
